@@ -128,6 +128,8 @@ static MAPS: [Map; 29] = maps!(
 );
 const POWI: [i32; 8] = [-2, -1, 0, 1, 2, 3, 4, 7];
 const POWF: [f64; 4] = [-1.5, 0.5, 2.0, 3.0];
+/// further exponents natively (values an implementation might special-case: ±1/2, ±1, 0, −2, 1/3)
+const POWF_EXTRA: [f64; 7] = [-0.5, 1.0, -1.0, 0.0, -2.0, 1.0 / 3.0, 1.5];
 
 // ---------------------------------------------------------------------------------------------
 
@@ -332,7 +334,8 @@ fn elementwise(cfg: &Cfg, rng: &mut Rng, rep: &mut Report, n: usize, mismatch: b
         let got = guard(|| ma.powi(e)).map(|m| (m.data.v.clone(), Some([m.nrows, m.ncols])));
         cx.value("Matrix", "powi", &name, got, &exp, mshape, inp2);
     }
-    for &e in POWF.iter() {
+    let extra: &[f64] = if cfg.miri() { &[] } else { &POWF_EXTRA };
+    for &e in POWF.iter().chain(extra.iter()) {
         let e = black_box(e);
         let exp: Vec<f64> = a.iter().map(|x| x.powf(e)).collect();
         let name = format!("powf({})", e);
@@ -452,6 +455,47 @@ fn reductions(cfg: &Cfg, rng: &mut Rng, rep: &mut Report, n: usize) {
             one(rep, "C04.prod", guard(|| v.prod()), p, pb, "Vector::prod");
         }
     }
+    // prod over a wide dynamic range: factors span hundreds of decades but every left-to-right
+    // partial product (and the result) is a normal number, so the definition is representable and a
+    // correct product stays within gamma_n of it; an implementation that forms partial products of
+    // sub-blocks on their own may overflow/underflow there.
+    if n >= 2 && rng.chance(0.5) {
+        let mut pref = 0.0f64; // decimal exponent of the running product
+        let wx: Vec<f64> = (0..n)
+            .map(|i| {
+                let target = if i + 1 == n { rng.range(-100.0, 100.0) } else { rng.range(-250.0, 250.0) };
+                let e = (target - pref).clamp(-300.0, 300.0);
+                pref += e;
+                let sign = if rng.chance(0.3) { -1.0 } else { 1.0 };
+                sign * rng.range(1.0, 2.0) * 10f64.powf(e) / 1.5
+            })
+            .collect();
+        let mut p = Dd::ONE;
+        let mut ok_range = true;
+        for &t in &wx {
+            p = p * Dd::new(t);
+            let a = p.f().abs();
+            if !(a > 1e-280 && a < 1e280) {
+                ok_range = false;
+            }
+        }
+        if ok_range {
+            let wregime = format!("reduce:prod-wide-range:{}", class);
+            rep.case(&wregime);
+            let pb = gamma_n(n) * p.f().abs();
+            for (form, got) in [("prod(&[f64])", guard(|| prod(&wx))), ("Vector::prod", guard(|| Vector::new(wx.clone()).prod()))] {
+                match got {
+                    Err(m) => {
+                        rep.check("C04.prod", &wregime, false, || json!({"panic": m, "form": form, "x": jf(&wx)}));
+                    }
+                    Ok(g) => {
+                        let err = (Dd::new(g) - p).f().abs();
+                        rep.check("C04.prod", &wregime, err <= pb, || json!({"form": form, "observed": jnum(g), "reference": jnum(p.f()), "abs_err": jnum(err), "bound": jnum(pb), "x": jf(&wx)}));
+                    }
+                }
+            }
+        }
+    }
     // norm
     let n2 = dd::dot(&x, &x).sqrt();
     let nb = (gamma_n(n.max(1) + 1) * 0.5 + 2.0 * dd::U) * n2.f() * (1.0 + 1e-9) + tiny;
@@ -471,7 +515,25 @@ fn reductions(cfg: &Cfg, rng: &mut Rng, rep: &mut Report, n: usize) {
     // log-sum-exp / log-mean-exp with large-magnitude log-domain inputs
     if n > 0 {
         let scale = *rng.choose(&[1.0, 50.0, 800.0, 1e4]);
-        let lx: Vec<f64> = (0..n).map(|_| rng.range(-1.0, 1.0) * scale).collect();
+        let mut lx: Vec<f64> = (0..n).map(|_| rng.range(-1.0, 1.0) * scale).collect();
+        // tied maxima / constant vectors: the shifted sum must count every copy of the maximum
+        let ties = match rng.usize(0, 3) {
+            0 if n >= 2 => {
+                let mx = lx.iter().cloned().fold(f64::NEG_INFINITY, f64::max);
+                let k = rng.usize(1, (n - 1).min(6));
+                for _ in 0..k {
+                    let i = rng.usize(0, n - 1);
+                    lx[i] = mx;
+                }
+                "tied-max"
+            }
+            1 if n >= 2 => {
+                let c = lx[0];
+                lx.iter_mut().for_each(|t| *t = c);
+                "constant"
+            }
+            _ => "generic",
+        };
         let m = lx.iter().cloned().fold(f64::NEG_INFINITY, f64::max);
         let mut s = Dd::ZERO;
         for &t in &lx {
@@ -479,7 +541,7 @@ fn reductions(cfg: &Cfg, rng: &mut Rng, rep: &mut Report, n: usize) {
         }
         let lse = m + s.f().ln();
         let lme = m + (s.f() / n as f64).ln();
-        let lregime = format!("reduce:logdomain:scale={}", scale);
+        let lregime = format!("reduce:logdomain:{}:scale={}", ties, scale);
         rep.case(&lregime);
         for (id, form, got, reference) in [
             ("C04.logsumexp", "logsumexp(&[f64])", guard(|| logsumexp(&lx)), lse),
